@@ -46,6 +46,11 @@ EXTRA = {
     # a literal that holds '=' followed, on the same line, by options written key=value
     "eq_literal_option": ["CREATE TABLE eq{i} (a varchar(20) DEFAULT 'k=v', b int DEFAULT 5) COMMENT='x';"],
     "eq_literal_option2": ["CREATE TABLE er{i} (a varchar(20) default 'k=v', b int) ENGINE=InnoDB DEFAULT CHARSET=utf8;"],
+    # an unnamed compound UNIQUE over long column names (the generated constraint name is longer than 63 characters)
+    "long_unique": ["CREATE TABLE lu{i} (customer_identifier_for_the_billing_period int, billing_period_start_date_in_the_local_zone date, "
+                    "UNIQUE (customer_identifier_for_the_billing_period, billing_period_start_date_in_the_local_zone));"],
+    # SET with variable names that start with '@'
+    "set_at": ["SET @batch_id = 42;", "SET @@session.sql_mode = ANSI;"],
     # hive bucketing / skew clauses (fields of the HQL class itself)
     "hql_buckets": ["CREATE TABLE hb{i} (a int, b string) CLUSTERED BY (a) INTO 32 BUCKETS SKEWED BY (a) ON (1, 2) STORED AS ORC;"],
     # the same table id twice (DROP + CREATE, two spellings, a TEMPORARY twin) together with ALTER / INDEX statements that address it
@@ -56,7 +61,7 @@ EXTRA = {
     "partition": ["CREATE TABLE pt{i} (a int, b date) PARTITION BY RANGE (b);"],
     "partitioned": ["CREATE TABLE pd{i} (a int, b string) PARTITIONED BY (dt string, hr int);"],
 }
-EXTRA_KIND = {"seq_value_pair": "sequences", "seq_comments_pair": "sequences", "type_value_pair": "types", "obj_params": "types", "clone_db": "databases", "clone_schema": "schemas", "set2": "ddl_properties", "set_empty": "ddl_properties", "set_empty2": "ddl_properties"}
+EXTRA_KIND = {"set_at": "ddl_properties", "seq_value_pair": "sequences", "seq_comments_pair": "sequences", "type_value_pair": "types", "obj_params": "types", "clone_db": "databases", "clone_schema": "schemas", "set2": "ddl_properties", "set_empty": "ddl_properties", "set_empty2": "ddl_properties"}
 
 
 def all_kinds():
